@@ -389,6 +389,11 @@ class Interp:
             if a == 'tuple':
                 return ('tuple', ops) if ops else UNIT
             if a == 'adt':
+                hk_ = getattr(self, 'adt_hook', None)      # (interp, adt, variant, cells) -> value | None : a caller's atomic domain (a stamp built from its word)
+                if hk_ is not None:
+                    r_ = hk_(self, strip_generics(rv['adt']), rv['variant'], ops)
+                    if r_ is not None:
+                        return r_
                 return ('adt', strip_generics(rv['adt']), rv['variant'], ops)
             if a in ('closure', 'coroutine', 'coroutine_closure'):
                 return ('closure', rv['def'], ops)
